@@ -27,6 +27,8 @@ import (
 const (
 	slack         = 2 * time.Second        // deadline monitor (DESIGN 2.6)
 	cSlack        = 300 * time.Millisecond // completeness: publication -> waiter, in-process
+	latSlack      = 500 * time.Millisecond // prompt return after the deadline / the cancellation when nothing held the goroutines
+	callMargin    = 100 * time.Millisecond // completeness: the call itself must precede the deadline by this much
 	watchdogAfter = 30 * time.Second
 	sleepBudget   = 100 * time.Millisecond // total sleep the hook may inject per scenario
 	autoHoldMax   = 30 * time.Millisecond
@@ -136,6 +138,7 @@ type op struct {
 	Res         string `json:"res"`
 	OutConn     int    `json:"out_conn,omitempty"`
 	OutSeq      uint32 `json:"out_seqno,omitempty"`
+	OutClient   int    `json:"out_client,omitempty"` // bmc: id of the connection whose client was returned (-1: not observable)
 	Best        int    `json:"best,omitempty"`
 	HeadsSeen   int    `json:"heads_seen,omitempty"` // wait.head hook hits during the call
 	Registered  bool   `json:"registered,omitempty"` // subscribe went past the head comparison (no fast path)
@@ -168,6 +171,8 @@ type gate struct {
 	release     chan struct{}
 	once        sync.Once
 	expired     atomic.Bool
+	reachedAt   atomic.Int64 // ns since the scenario start
+	releasedAt  atomic.Int64
 }
 
 func (g *gate) open() { g.once.Do(func() { close(g.release) }) }
@@ -178,7 +183,8 @@ type scenario struct {
 	rng      *mon.Rng
 	t0       time.Time
 	p        *pool.ConnPool
-	conns    []*pool.VerifConnection
+	conns    []*pool.VerifConnection // indexed by connection id
+	initBest int                     // the pool's choice before any refresh (the first connection registered)
 	desc     map[string]any
 	perturb  int
 	budget   atomic.Int64
@@ -211,12 +217,29 @@ func newScenario(w *mon.Worker, name string, rng *mon.Rng) *scenario {
 func (sc *scenario) now() int64 { return int64(time.Since(sc.t0)) }
 
 func (sc *scenario) build(nConns int, strategy pool.Strategy, interval time.Duration, alive func(i int) bool, rtt func(i int) time.Duration) {
+	order := make([]int, nConns)
+	for i := range order {
+		order[i] = i
+	}
+	sc.buildOrdered(order, strategy, interval, alive, rtt)
+}
+
+// buildOrdered registers the connections (ids 0..n-1) in the given order, the
+// way servers finish connecting in any order in production. The pool keeps
+// them in configuration (id) order; its choice before the first refresh is
+// the first one registered.
+func (sc *scenario) buildOrdered(order []int, strategy pool.Strategy, interval time.Duration, alive func(i int) bool, rtt func(i int) time.Duration) {
 	sc.p = pool.VerifNewPool(strategy, nil)
 	sc.p.VerifSetUpdateInterval(interval)
-	for i := 0; i < nConns; i++ {
-		sc.conns = append(sc.conns, sc.p.VerifNewConnection(i, alive(i), rtt(i)))
+	sc.conns = make([]*pool.VerifConnection, len(order))
+	for _, id := range order {
+		sc.conns[id] = sc.p.VerifNewConnection(id, alive(id), rtt(id))
 	}
-	sc.desc["connections"], sc.desc["strategy"], sc.desc["update_interval"] = nConns, string(strategy), interval.String()
+	if b := sc.p.VerifBest(); b != nil {
+		sc.initBest = b.ID()
+	}
+	sc.desc["connections"], sc.desc["strategy"], sc.desc["update_interval"] = len(order), string(strategy), interval.String()
+	sc.desc["registration_order"], sc.desc["initial_choice"] = fmt.Sprint(order), sc.initBest
 }
 
 func (sc *scenario) count(point string) int64 { return sc.counts[point].Load() }
@@ -281,6 +304,8 @@ func (sc *scenario) onPoint(a *actor, point string) {
 		a.mu.Unlock()
 	}
 	if g != nil {
+		g.reachedAt.Store(sc.now())
+		defer func() { g.releasedAt.Store(sc.now()) }()
 		close(g.reached)
 		t := time.NewTimer(g.maxHold)
 		defer t.Stop()
@@ -457,10 +482,18 @@ func (sc *scenario) doBMC(a *actor, timeout time.Duration) *op {
 	o := a.begin(&op{Kind: "bmc", TimeoutMs: timeout.Milliseconds(), CancelMs: -1})
 	ctx, cancel := context.WithTimeout(context.Background(), timeout)
 	defer cancel()
-	_, head, err := sc.p.BestMasterchainClient(ctx)
+	cli, head, err := sc.p.BestMasterchainClient(ctx)
 	a.end(o, classifyErr(err), func(o *op) {
+		o.OutClient = -1
 		if err == nil {
 			o.OutConn, o.OutSeq = int(head.RootHash[0]), head.Seqno
+			if cli != nil { // the scripted connections hand out one distinct client each (hook-C13-registration-and-client)
+				for _, c := range sc.conns {
+					if c.Client() == cli {
+						o.OutClient = c.ID()
+					}
+				}
+			}
 			sc.mu.Lock()
 			_, o.known = sc.pubHeads[head]
 			sc.mu.Unlock()
@@ -718,7 +751,14 @@ type pOut struct {
 	best int8
 }
 
-// the sequential specification (DESIGN C13, oracle B)
+// the sequential specification (DESIGN C13, oracle B); initBest is the pool's
+// choice before the first refresh
+func pModelFor(initBest int) porcupine.Model {
+	m := pModel
+	m.Init = func() interface{} { return pState{best: int8(initBest)} }
+	return m
+}
+
 var pModel = porcupine.Model{
 	Init: func() interface{} { return pState{} },
 	Step: func(state, input, output interface{}) (bool, interface{}) {
@@ -765,8 +805,8 @@ func (sc *scenario) allOps() []*op {
 
 // bestDuring returns the connection that was the pool's choice during the
 // whole interval [from, to], or -1 if a switch may have changed it.
-func bestDuring(switches []*op, from, to int64) int {
-	best := 0
+func bestDuring(switches []*op, init int, from, to int64) int {
+	best := init
 	for _, s := range switches { // sequential (one switcher), sorted by Call
 		if s.Ret < from {
 			best = s.Best
@@ -780,6 +820,29 @@ func bestDuring(switches []*op, from, to int64) int {
 		}
 	}
 	return best
+}
+
+// bestsDuring returns every connection that may have been the pool's choice
+// at some moment of [from, to].
+func bestsDuring(switches []*op, init int, from, to int64) map[int]bool {
+	best := init
+	out := map[int]bool{}
+	for _, s := range switches { // sequential (one switcher), sorted by Call
+		if s.Done && s.Ret < from {
+			best = s.Best
+			continue
+		}
+		if s.Call > to {
+			break
+		}
+		if s.Done {
+			out[s.Best] = true
+		} else {
+			return nil // a refresh that never returned: anything
+		}
+	}
+	out[best] = true
+	return out
 }
 
 func (sc *scenario) abs(ns int64) time.Time { return sc.t0.Add(time.Duration(ns)) }
@@ -865,6 +928,28 @@ func (sc *scenario) evaluate(complete bool) {
 	timingOK := func(from, to int64, limit time.Duration) bool {
 		return !disturbed && probe.worst(sc.abs(from), sc.abs(to)) <= limit
 	}
+	// intervals during which a directed (explicit) hold kept some goroutine of this scenario parked
+	type iv struct{ from, to int64 }
+	var holds []iv
+	sc.mu.Lock()
+	for _, g := range sc.gates {
+		if g.used && !g.auto {
+			to := g.releasedAt.Load()
+			if to == 0 {
+				to = sc.now()
+			}
+			holds = append(holds, iv{g.reachedAt.Load(), to})
+		}
+	}
+	sc.mu.Unlock()
+	heldDuring := func(from, to int64) bool {
+		for _, h := range holds {
+			if h.from <= to && h.to >= from {
+				return true
+			}
+		}
+		return false
+	}
 
 	for _, o := range all {
 		w.Count("ops/"+o.Kind, 1)
@@ -884,61 +969,91 @@ func (sc *scenario) evaluate(complete bool) {
 			return m
 		}
 		timeout := time.Duration(o.TimeoutMs) * time.Millisecond
-		limit := timeout
-		if o.CancelMs >= 0 && time.Duration(o.CancelMs)*time.Millisecond < limit {
-			limit = time.Duration(o.CancelMs) * time.Millisecond
-		}
 		elapsed := time.Duration(o.Ret - o.Call)
-		// result kinds
-		switch {
-		case o.Res == "ok":
-		case o.Res == "timeout" && o.Kind == "wait":
-			if elapsed < timeout-2*time.Millisecond {
-				sc.violate("early-timeout@"+site, wit(map[string]any{"elapsed": elapsed.String()}))
-			}
-		case o.Res == "cancel" && o.Kind == "wait":
-			if o.CancelledAt == 0 || o.CancelledAt > o.Ret {
-				sc.violate("spurious-cancel@"+site, wit(nil))
-			}
-		case o.Res == "deadline" && o.Kind == "bmc":
-			if elapsed < timeout-2*time.Millisecond {
-				sc.violate("early-timeout@"+site, wit(map[string]any{"elapsed": elapsed.String()}))
-			}
-		default:
-			sc.violate("unexpected-error@"+site, wit(nil))
+		// the moment from which the statement demands an error: the timeout, or the cancellation if that
+		// came first (its real time, not the planned one)
+		deadline, after := o.Call+int64(timeout), "timeout"
+		if o.CancelledAt > 0 && o.CancelledAt < deadline {
+			deadline, after = o.CancelledAt, "cancel"
 		}
-		// deadline monitor: measured from the call
+		limit := time.Duration(deadline - o.Call)
+		resClass := o.Res
+		if strings.HasPrefix(resClass, "err:") {
+			resClass = "other-error"
+		}
+		// result kinds: the statement asks for success or *an* error; which error is not its business
+		// (recorded only). An error is legal once the timeout has elapsed or the context is cancelled.
+		if o.Res != "ok" {
+			w.Seen("error_kinds", o.Kind+"/"+o.Res)
+			cancelled := o.CancelledAt != 0 && o.CancelledAt <= o.Ret
+			if elapsed < timeout-2*time.Millisecond && !cancelled {
+				sig := "early-error@"
+				switch o.Res {
+				case "timeout", "deadline":
+					sig = "early-timeout@"
+				case "cancel":
+					sig = "spurious-cancel@"
+				}
+				sc.violate(sig+site, wit(map[string]any{"elapsed": elapsed.String()}))
+			}
+		}
+		// deadline monitor: measured from the call. Two bounds: `slack` always; `latSlack` when no directed
+		// hold kept any goroutine of this scenario parked between the deadline and the return.
 		w.Count("deadline_checked", 1)
-		if elapsed > limit+slack {
+		late := time.Duration(o.Ret - deadline)
+		cls := "/no-head-updates"
+		if o.HeadsSeen > 0 {
+			cls = "/after-head-updates"
+		}
+		if after == "cancel" {
+			cls = "/after-cancel"
+		}
+		if o.Kind == "bmc" {
+			cls = ""
+		}
+		switch {
+		case late > slack:
 			if !timingOK(o.Call, o.Ret, slack/4) {
 				if !disturbed {
 					w.Inconclusive("late return while the machine was stalling")
 				}
 			} else {
-				cls := "/no-head-updates"
-				if o.HeadsSeen > 0 {
-					cls = "/after-head-updates"
-				}
-				if o.Kind == "bmc" {
-					cls = ""
-				}
 				sc.violate("late-return@"+site+cls, wit(map[string]any{"elapsed": elapsed.String(), "allowed": (limit + slack).String(),
-					"head_updates_received_during_call": o.HeadsSeen}))
+					"head_updates_received_during_call": o.HeadsSeen, "error_due_after": after}))
 			}
+		case late > latSlack:
+			switch {
+			case heldDuring(deadline, o.Ret):
+				w.Count("prompt_return_unjudged_directed_hold", 1)
+			case !timingOK(deadline, o.Ret, latSlack/5):
+				if !disturbed {
+					w.Inconclusive("late return while the machine was stalling")
+				}
+			default:
+				sc.violate("late-return@"+site+cls, wit(map[string]any{"elapsed": elapsed.String(), "allowed": (limit + latSlack).String(),
+					"head_updates_received_during_call": o.HeadsSeen, "error_due_after": after}))
+			}
+		default:
+			w.Count("prompt_return_checked", 1)
 		}
-		// completeness: a qualifying head on the connection that was the choice during the whole call
-		if x := bestDuring(switches, o.Call, o.Ret); x >= 0 {
+		// completeness: a qualifying head on the connection that was the choice during the whole call,
+		// published - and the call made - well before the deadline (a call that starts with its context
+		// already cancelled, or about to be, may legitimately see the cancellation first)
+		if x := bestDuring(switches, sc.initBest, o.Call, o.Ret); x >= 0 {
 			need := o.N
 			if o.Kind == "bmc" {
 				need = 1
 			}
-			deadline := o.Call + int64(limit)
 			var hit *op
 			for _, s := range sets {
 				if s.Done && s.Conn == x && s.N >= need && s.Ret <= deadline-int64(cSlack) {
 					hit = s
 					break
 				}
+			}
+			if hit != nil && o.Call > deadline-int64(callMargin) {
+				w.Count("completeness_unjudged_call_too_close_to_deadline", 1)
+				hit = nil
 			}
 			if hit != nil {
 				w.Count("completeness_obligations", 1)
@@ -952,8 +1067,24 @@ func (sc *scenario) evaluate(complete bool) {
 							w.Inconclusive("missed head while the machine was stalling")
 						}
 					} else {
-						sc.violate("missed-head@"+site+"/"+o.Res, wit(map[string]any{"published": *hit, "best_connection": x,
+						sc.violate("missed-head@"+site+"/"+resClass, wit(map[string]any{"published": *hit, "best_connection": x,
 							"margin_before_deadline": time.Duration(deadline - hit.Ret).String()}))
+					}
+				}
+			}
+		}
+		// BestMasterchainClient hands out the chosen connection: the head (and the client, when the hook
+		// makes clients distinguishable) must belong to a connection that was the choice at some moment of the call
+		if o.Kind == "bmc" && o.Res == "ok" && o.known {
+			if may := bestsDuring(switches, sc.initBest, o.Call, o.Ret); may != nil {
+				w.Count("bmc_connection_checked", 1)
+				if !may[o.OutConn] {
+					sc.violate("head-of-a-connection-that-was-not-the-choice@"+site, wit(map[string]any{"head_of_connection": o.OutConn, "choices_during_the_call": fmt.Sprint(may)}))
+				}
+				if o.OutClient >= 0 {
+					w.Count("bmc_client_checked", 1)
+					if !may[o.OutClient] {
+						sc.violate("client-of-a-connection-that-was-not-the-choice@"+site, wit(map[string]any{"client_of_connection": o.OutClient, "choices_during_the_call": fmt.Sprint(may)}))
 					}
 				}
 			}
@@ -1012,7 +1143,7 @@ func (sc *scenario) evaluate(complete bool) {
 		pt = 60 * time.Second
 	}
 	t := time.Now()
-	res := porcupine.CheckOperationsTimeout(pModel, hist, pt)
+	res := porcupine.CheckOperationsTimeout(pModelFor(sc.initBest), hist, pt)
 	w.Count("porcupine/"+string(res), 1)
 	w.Count("porcupine_ops_checked", int64(len(hist)))
 	if d := time.Since(t); d > time.Second {
@@ -1034,7 +1165,7 @@ func (sc *scenario) evaluate(complete bool) {
 			for _, s := range sets {
 				if s.N >= o.N && s.Call <= o.Ret {
 					any = true
-					if b := bestDuring(switches, o.Call, o.Ret); b == -1 || b == s.Conn {
+					if b := bestDuring(switches, sc.initBest, o.Call, o.Ret); b == -1 || b == s.Conn {
 						onBest = true
 					}
 				}
@@ -1079,9 +1210,12 @@ func randomScenario(w *mon.Worker, name string, rng *mon.Rng, pre func(sc *scena
 		interval = time.Duration(rng.Range(500, 5000)) * time.Microsecond
 	}
 	sc.perturb = rng.Intn(3)
-	alive := func(i int) bool { return i == 0 || mode == "switch" }
-	rtt := func(i int) time.Duration { return ms(rng.Range(1, 3)) }
-	sc.build(nConns, strategy, interval, alive, rtt)
+	// servers finish connecting in any order: register the ids in a random order. Outside "switch" mode
+	// only the first one registered (the initial choice) is alive, so no refresh can move the choice.
+	order := rng.Perm(nConns)
+	alive := func(i int) bool { return i == order[0] || mode == "switch" }
+	rtt := func(i int) time.Duration { return ms(rng.Range(0, 3)) } // 0 = no pong measured yet
+	sc.buildOrdered(order, strategy, interval, alive, rtt)
 	sc.desc["mode"], sc.desc["perturbation"] = mode, sc.perturb
 	if pre != nil {
 		pre(sc)
@@ -1344,14 +1478,17 @@ func directedWokenWaiterVsTwoHeads(w *mon.Worker, rng *mon.Rng) {
 func directedFullChannelVsSubscribe(w *mon.Worker, rng *mon.Rng) {
 	sc := newScenario(w, "directed/full-update-channel-x-subscribe", rng)
 	sc.build(3, pool.BestPingStrategy, time.Hour, func(int) bool { return true }, func(int) time.Duration { return ms(1) })
-	sc.desc["schedule"] = "waiter w0 registered; hold the Run loop at notify.send; queue 10 heads of connection 1 (channel full); park publishers of connection 1, then of the best connection 0, in SetMasterHead; start waiter w1 (queues for the pool lock); release the Run loop"
+	sc.desc["schedule"] = "waiters w0 (far target) and w2 (target 102) registered; hold the Run loop at notify.send; queue 10 heads of connection 1 (channel full); publishers of connection 1, then of the best connection 0 (head 102), call SetMasterHead; start waiter w1 (queues for the pool lock); release the Run loop; nothing else is published: w2 must be woken by 102"
 	drv, release := sc.adopt("drv", "drv")
 	defer release()
 	sc.startRun() // nothing published yet: the first update the Run loop sees is the one it is held on
 	sc.maxPlan = ms(1500)
 	g := sc.hold("run", "notify.send", 1, 20*time.Second)
 	sc.spawn("w", "w0", &sc.wgW, func(a *actor) { sc.doWait(a, 100+100000, ms(1200), -1) })
-	sc.awaitCount("subscribe.compared", 1, time.Second)
+	// w2 waits for exactly the head that the best connection reports while the update channel is full:
+	// that report must reach it (a publication that gives up on a full channel loses the wake-up)
+	sc.spawn("w", "w2", &sc.wgW, func(a *actor) { sc.doWait(a, 102, ms(1200), -1) })
+	sc.awaitCount("subscribe.compared", 2, time.Second)
 	time.Sleep(ms(5))
 	sc.doSet(drv, 0, 101)
 	select {
@@ -1375,6 +1512,132 @@ func directedFullChannelVsSubscribe(w *mon.Worker, rng *mon.Rng) {
 	sc.spawn("w", "w1", &sc.wgW, func(a *actor) { sc.doWait(a, 102, ms(1200), -1) })
 	time.Sleep(ms(30))
 	g.open()
+	sc.finish(nil)
+}
+
+// a context cancelled long before the timeout: the call must come back with an
+// error promptly after the cancellation, whether or not heads keep arriving
+// (the random waits are too short for the prompt-return bound to bite).
+func directedCancelLongBeforeTimeout(w *mon.Worker, variant string, rng *mon.Rng) {
+	sc, _, release := oneConn(w, "directed/cancel-long-before-timeout/"+variant, rng, 100)
+	defer release()
+	timeout, cancelAfter := ms(4000), ms(rng.Range(40, 80))
+	sc.desc["schedule"] = fmt.Sprintf("one waiter, target far away, timeout %v, context cancelled after %v; %s", timeout, cancelAfter,
+		map[string]string{"quiet": "no head is published", "heads": "a new (insufficient) head every 30 ms"}[variant])
+	sc.maxPlan = timeout
+	var done atomic.Bool
+	sc.spawn("w", "w0", &sc.wgW, func(a *actor) { sc.doWait(a, 100+100000, timeout, cancelAfter); done.Store(true) })
+	if variant == "heads" {
+		sc.spawn("pub", "pub0.0", &sc.wgP, func(a *actor) {
+			for i := uint32(1); !done.Load() && time.Since(sc.t0) < timeout+time.Second; i++ {
+				sc.doSet(a, 0, 100+i)
+				time.Sleep(ms(30))
+			}
+		})
+	}
+	sc.finish(nil)
+}
+
+// one insufficient head shortly before the timeout must not buy the waiter more time.
+func directedLateHeadVsTimeout(w *mon.Worker, rng *mon.Rng) {
+	sc, drv, release := oneConn(w, "directed/late-insufficient-head-x-timeout", rng, 100)
+	defer release()
+	timeout := ms(800)
+	at := ms(rng.Range(600, 680))
+	sc.desc["schedule"] = fmt.Sprintf("one waiter, target far away, timeout %v; a single insufficient head after %v; the call must end at its timeout", timeout, at)
+	sc.maxPlan = timeout
+	sc.spawn("w", "w0", &sc.wgW, func(a *actor) { sc.doWait(a, 100+100000, timeout, -1) })
+	time.Sleep(at)
+	sc.doSet(drv, 0, 101)
+	sc.finish(nil)
+}
+
+// BestMasterchainClient while the chosen connection has not reported a head
+// yet and another connection has: the caller must be served by the chosen
+// connection (here: once it reports), not by whichever connection has a head.
+func directedBMCBeforeFirstHeadOfTheChoice(w *mon.Worker, rng *mon.Rng) {
+	sc := newScenario(w, "directed/bmc-x-choice-without-head-x-other-with-head", rng)
+	strategy := pool.Strategy(pool.BestPingStrategy)
+	if rng.Bool() {
+		strategy = pool.FirstWorkingConnection
+	}
+	order := rng.Perm(3)
+	sc.buildOrdered(order, strategy, time.Hour, func(int) bool { return true }, func(i int) time.Duration { return ms(1 + i) })
+	choice := sc.initBest
+	sc.desc["schedule"] = fmt.Sprintf("3 connections, no refresh; the two that are not the choice (%d) report head 50; BestMasterchainClient is called; 100 ms later the choice reports head 50", choice)
+	drv, release := sc.adopt("drv", "drv")
+	defer release()
+	sc.startRun()
+	sc.maxPlan = ms(600)
+	for c := range sc.conns {
+		if c != choice {
+			sc.doSet(drv, c, 50)
+		}
+	}
+	time.Sleep(ms(10))
+	sc.spawn("w", "w0", &sc.wgW, func(a *actor) { sc.doBMC(a, ms(600)) })
+	time.Sleep(ms(100))
+	sc.doSet(drv, choice, 50)
+	sc.finish(nil)
+}
+
+// the refresh driven by the Run loop's ticker: the choice dies while heads of
+// every connection keep arriving much more often than the refresh interval.
+// After "a refresh" the choice must be the live connection; a Run loop whose
+// refresh is starved by head updates never gets there.
+func directedTickerRefreshUnderHeadTraffic(w *mon.Worker, rng *mon.Rng) {
+	sc := newScenario(w, "directed/ticker-refresh-x-head-traffic", rng)
+	strategy := pool.Strategy(pool.BestPingStrategy)
+	if rng.Bool() {
+		strategy = pool.FirstWorkingConnection
+	}
+	interval := ms(100) // far above the gap between two head updates, also on a loaded machine
+	order := rng.Perm(2)
+	sc.buildOrdered(order, strategy, interval, func(int) bool { return true }, func(int) time.Duration { return ms(1) })
+	first := sc.initBest
+	other := 1 - first
+	sc.desc["schedule"] = fmt.Sprintf("2 live connections, refresh every %v, both report a new head every ~4 ms; after 150 ms connection %d (the choice) dies; the choice must become %d", interval, first, other)
+	_, release := sc.adopt("drv", "drv")
+	defer release()
+	sc.startRun()
+	var stop atomic.Bool
+	sc.spawn("pub", "pub.all", &sc.wgP, func(a *actor) {
+		for !stop.Load() && time.Since(sc.t0) < 10*time.Second {
+			n := sc.chain.Add(1)
+			sc.doSet(a, 0, n)
+			sc.doSet(a, 1, n)
+			time.Sleep(ms(4))
+		}
+	})
+	time.Sleep(ms(150))
+	// make sure the pool's choice is the one about to die (a refresh may have moved it among equals)
+	if b := sc.p.VerifBest(); b != nil {
+		first = b.ID()
+		other = 1 - first
+	}
+	sc.conns[first].SetAlive(false)
+	died := time.Now()
+	allowed := 10*interval + latSlack // 1.5 s for a 100 ms ticker
+	moved := false
+	for time.Since(died) < allowed {
+		if b := sc.p.VerifBest(); b != nil && b.ID() == other {
+			moved = true
+			break
+		}
+		time.Sleep(time.Millisecond)
+	}
+	took := time.Since(died)
+	stop.Store(true)
+	w.Count("ticker_refresh_observed", 1)
+	switch {
+	case moved:
+		sc.desc["choice_moved_after"] = took.String()
+	case probe.worst(died, time.Now()) > latSlack/5:
+		w.Inconclusive("ticker refresh not seen while the machine was stalling")
+	default:
+		sc.violate("stale-choice@Run/no-refresh-while-head-updates-arrive", map[string]any{"scenario": sc.desc, "waited": took.String(),
+			"refresh_interval": interval.String(), "hook_counts": sc.countsMap()})
+	}
 	sc.finish(nil)
 }
 
@@ -1408,6 +1671,13 @@ func directedCases(thorough bool) []directedCase {
 		cs = append(cs, directedCase{"subscribe-vs-publish", directedSubscribeVsPublish})
 		cs = append(cs, directedCase{"woken-waiter-vs-two-heads", directedWokenWaiterVsTwoHeads})
 		cs = append(cs, directedCase{"full-channel-vs-subscribe", directedFullChannelVsSubscribe})
+		for _, v := range []string{"quiet", "heads"} {
+			v := v
+			cs = append(cs, directedCase{"cancel-long-before-timeout-" + v, func(w *mon.Worker, rng *mon.Rng) { directedCancelLongBeforeTimeout(w, v, rng) }})
+		}
+		cs = append(cs, directedCase{"late-head-vs-timeout", directedLateHeadVsTimeout})
+		cs = append(cs, directedCase{"bmc-before-first-head-of-the-choice", directedBMCBeforeFirstHeadOfTheChoice})
+		cs = append(cs, directedCase{"ticker-refresh-under-head-traffic", directedTickerRefreshUnderHeadTraffic})
 	}
 	pairs := [][2]string{{"unsubscribe.enter", "notify.send"}, {"subscribe.compared", "sethead.publish"}}
 	perPair := 1
